@@ -501,6 +501,62 @@ func c10Snapshots(ev *vlib.Evidence, driver string, s store.Store, idx int, with
 	ev.Case(fmt.Sprintf("snapshots %s linked=%v n=%d idx=%d", driver, linked, len(snaps), idx), len(snaps) > 4)
 }
 
+// c10LinkRace: credits to a node race with the node being linked to a wallet.
+// No credit may be lost or left behind on the migrated trial balance.
+func c10LinkRace(ev *vlib.Evidence, driver string, s store.Store, idx int) {
+	r := vlib.Rand("C10-link-"+driver, idx)
+	pfx := fmt.Sprintf("l%d-", idx)
+	node := store.NodeID(pfx + "n")
+	acct := store.Account(pfx + "A")
+	s.SetNode(store.Node{ID: node, LastSeen: time.Now()})
+	want := new(big.Int)
+	if r.Intn(2) == 0 {
+		s.AddNodeBalance(node, big.NewInt(1000))
+		want.SetInt64(1000)
+	}
+	k := 3 + r.Intn(8)
+	var wg sync.WaitGroup
+	var mu sync.Mutex
+	start := make(chan struct{})
+	failed := 0
+	for g := 0; g < k; g++ {
+		wg.Add(1)
+		go func(g int) {
+			defer wg.Done()
+			<-start
+			d := new(big.Int).Lsh(big.NewInt(1), uint(12+g))
+			if err := s.AddNodeBalance(node, d); err == nil {
+				mu.Lock()
+				want.Add(want, d)
+				mu.Unlock()
+			} else {
+				mu.Lock()
+				failed++
+				mu.Unlock()
+			}
+		}(g)
+	}
+	wg.Add(1)
+	go func() {
+		defer wg.Done()
+		<-start
+		if r.Intn(3) == 0 {
+			time.Sleep(time.Duration(r.Intn(200)) * time.Microsecond)
+		}
+		s.AddAccountNode(acct, node)
+	}()
+	close(start)
+	wg.Wait()
+	nb, _ := s.GetNodeBalance(node)
+	ab, _ := s.GetAccountBalance(acct)
+	desc := fmt.Sprintf("link-race %s adders=%d failed=%d", driver, k, failed)
+	ev.Case(desc+fmt.Sprint(idx), true)
+	ev.Count("link-race-rounds", 1)
+	if nb.Account != acct || nb.Credit.Cmp(want) != 0 || ab.Credit.Cmp(want) != 0 {
+		ev.Defer("link-race:"+driver+":credit-lost-or-left-on-trial-balance", map[string]interface{}{"case": desc, "sum_of_acknowledged_credits": want.String(), "node_balance": vlib.CanonBalance(nb, nil), "account_balance": vlib.CanonBalance(ab, nil)})
+	}
+}
+
 // c10Child runs all concurrent workloads in a child process whose race
 // detector log is parsed by the parent.
 func c10Child() int {
@@ -515,6 +571,9 @@ func c10Child() int {
 		}
 		for i := 0; i < vlib.Scale(40, 1000); i++ {
 			c10Snapshots(ev, driver, s, i, true)
+		}
+		for i := 0; i < vlib.Scale(150, 4000); i++ {
+			c10LinkRace(ev, driver, s, i)
 		}
 		cleanup()
 		for _, tr := range []string{"local", "remote", "tcp", "http"} {
@@ -542,7 +601,7 @@ func c10Child() int {
 
 func TestC10(t *testing.T) {
 	ev := vlib.NewEvidence("C10", "exploration",
-		"child process under the Go race detector (built with math_big_pure_go so big.Int digit writes are visible; reports collected with halt_on_error=0 and de-duplicated by the pair of innermost repository frames) running: (2) store histories of 6..16 goroutines on 2-4 keys (unique power-of-two balance deltas, reads, nonces, node registers) recorded at the API boundary and checked with porcupine per key, on both drivers; (3) pool rounds of 4..15 clients updating concurrently against shared hosts over Local, in-memory Remote, TCP Remote and HTTP, with per-host credit compared to the sum of individually acknowledged charges, zero-sum, client balance = last acknowledged reply, no conflict errors; (4) snapshot immutability: values handed out by the stores are deep-hashed (incl. big.Int words) and re-hashed after later writes while a reader keeps re-reading them; plus the concurrent workloads of C01/C05/C07/C09/C14; non-trivial: overlapping same-key operations / more acknowledged updates than clients / >4 snapshots; distinct = case descriptors")
+		"child process under the Go race detector (built with math_big_pure_go so big.Int digit writes are visible; reports collected with halt_on_error=0 and de-duplicated by the pair of innermost repository frames) running: (2) store histories of 6..16 goroutines on 2-4 keys (unique power-of-two balance deltas, reads, nonces, node registers) recorded at the API boundary and checked with porcupine per key, on both drivers; (3) pool rounds of 4..15 clients updating concurrently against shared hosts over Local, in-memory Remote, TCP Remote and HTTP, with per-host credit compared to the sum of individually acknowledged charges, zero-sum, client balance = last acknowledged reply, no conflict errors; (2b) link races: credits to a node racing with AddAccountNode must all end up on the wallet; (4) snapshot immutability: values handed out by the stores are deep-hashed (incl. big.Int words) and re-hashed after later writes while a reader keeps re-reading them; plus the concurrent workloads of C01/C05/C07/C09/C14; non-trivial: overlapping same-key operations / more acknowledged updates than clients / >4 snapshots; distinct = case descriptors")
 	ev.Assume("one production-clock world in two leaves payPerInterval's clock unset so the lazy initialisation is on the path")
 	// sequential snapshot pass in this process (a mutated snapshot is reported
 	// even if the concurrent readers of the child crash on it)
